@@ -181,7 +181,13 @@ def run_cases(ctx, n_libs: int, per_lib: int, focus: str):
         sres = ctx.driver.batch(spec_reqs)
         for (case, want), (st, payload) in zip(keep, sres):
             if want[0] != "ok":
+                # streamOp_refusals_are_declared, observed on the code: a refusal of the implementation is a refusal of the
+                # specification (ValueError), or check_ast's (also ValueError)
                 ctx.dist["spec:implementation-refused"] += 1
+                if want[1] == "ValueError" and st == "ok":
+                    ctx.dist["spec:refused-by-check_ast-only"] += 1
+                elif (st, payload) != ("err", want[1]) and not (want[1] == "ValueError" and st == "err"):
+                    ctx.disagree("streamOpTy(spec,refusal)", {k: v for k, v in case.items() if k != "class_model"}, want[1][:300], (st, payload[:300]))
                 continue
             impl_ty = render(sparse(want[1])[1])
             ctx.dist["spec:item-type-compared"] += 1
